@@ -176,7 +176,11 @@ def make_job(rng, nlines):
         elif r < 0.6:
             g.rapid(z=round(rng.uniform(0, 5), 2), comment=rng.choice(["retract", "subir ñ", "上"]))
         elif r < 0.7:
-            g.comment(rng.choice(["layer", "capa número 3", "G1 X999"]))
+            if rng.random() < 0.3:
+                # a host-command comment (";@..." lines are handed to process_host_command, unknown ones are ignored)
+                g.write(rng.choice([";@note layer done", "  ;@host beep"]))
+            else:
+                g.comment(rng.choice(["layer", "capa número 3", "G1 X999"]))
         elif r < 0.75:
             g.write("")
         elif r < 0.85:
